@@ -28,6 +28,12 @@ func InitGenesis(
 	// Set genesis state
 	maxSupply := data.MaxSupply
 	k.SetMaxSupply(ctx, maxSupply)
+
+	// the timestamp of the last minting block is exported, so it has to be imported as well:
+	// otherwise the first block after a restart from an exported genesis mints nothing
+	if !data.PrevBlockTs.IsNil() && data.PrevBlockTs.IsPositive() {
+		k.SetPrevBlockTS(ctx, data.PrevBlockTs)
+	}
 }
 
 // ExportGenesis returns a GenesisState for a given context and keeper.
